@@ -125,3 +125,61 @@ C01_SCHEMAS = {
         'if s == t | if not (X == ty(s) or Z == ty(s)) : panic',
     ],
 }
+
+
+# C11 — composition, adjoint, basis plugging (DESIGN 5/C11 D2-D5): sqrt2^-1 per plugged element (count of non-SKIP entries in range),
+# adjoint = negate every phase, exchange inputs/outputs (old values), conjugate the scalar; plug = append, merge seam edge types, smart insertion,
+# remove BOTH boundary vertices of every seam, outputs replaced by the other graph's outputs through the vertex map; arity mismatch panics.
+C11_SCHEMAS = {
+    'graph::GraphLike::plug_vertex': [
+        'if SKIP != b : set_phase(v, b.phase)',
+        'if SKIP != b : set_vertex_type(v, Z)',
+        'if SKIP != b | if b.is_z : toggle_edge_type(first(N(v)), v)',
+    ],
+    'graph::GraphLike::plug_input': [
+        'inputs.remove(i)',
+        'plug_vertex(inputs[i], b)',
+        'scalar *= sqrt2^(-1)',
+    ],
+    'graph::GraphLike::plug_output': [
+        'outputs.remove(i)',
+        'plug_vertex(outputs[i], b)',
+        'scalar *= sqrt2^(-1)',
+    ],
+    'graph::GraphLike::plug_inputs': [
+        'each (i, v) in enumerate inputs | if (SKIP != plug[i] and i < |plug|) : plug_vertex(v, plug[i])',
+        'scalar *= sqrt2^(-count[each (i, v) in enumerate inputs | if (SKIP != plug[i] and i < |plug|)])',
+        'set_inputs(vec{each (i, v) in enumerate inputs | if not (SKIP != plug[i] and i < |plug|) : v})',
+    ],
+    'graph::GraphLike::plug_outputs': [
+        'each (i, v) in enumerate outputs | if (SKIP != plug[i] and i < |plug|) : plug_vertex(v, plug[i])',
+        'scalar *= sqrt2^(-count[each (i, v) in enumerate outputs | if (SKIP != plug[i] and i < |plug|)])',
+        'set_outputs(vec{each (i, v) in enumerate outputs | if not (SKIP != plug[i] and i < |plug|) : v})',
+    ],
+    'graph::GraphLike::adjoint': [
+        'each v in V(g) : set_phase(v, -phase(v))',
+        'scalar = conj(scalar)',
+        'set_inputs(outputs)',
+        'set_outputs(inputs)',
+    ],
+    'graph::GraphLike::plug': [
+        'append_graph(other)',
+        "for k in 0..|outputs| : add_edge_smart(first(inc'(outputs[k])).v, vmap[first(other.inc(other.inputs[k])).v], merge(first(inc'(outputs[k])).et,first(other.inc(other.inputs[k])).et))",
+        'for k in 0..|outputs| : remove_vertex(outputs[k])',
+        'for k in 0..|outputs| : remove_vertex(vmap[other.inputs[k]])',
+        'if |other.inputs| != |outputs| : panic',
+        'set_outputs(map[x -> vmap[x]] other.outputs)',
+    ],
+    'graph::GraphLike::to_adjoint': [
+        'adjoint()',
+    ],
+    'graph::GraphLike::append_graph': [
+        'each (v0, v1, et) in other.edges : add_edge_with_type(vmap[v0], vmap[v1], et)',
+        'each v in other.vertices : fresh#1 = add_vertex(other.vertex_data(v))',
+        'scalar *= other.scalar()',
+    ],
+    'graph::GraphLike::x_to_z': [
+        'each v in V(g) | if X == ty(v) : set_vertex_type(v, Z)',
+        'each v in V(g) | if X == ty(v) | each w in N(v) : toggle_edge_type(v, w)',
+    ],
+}
